@@ -7,9 +7,10 @@ import Driver.NormalizeOps
 import Driver.TablesOps
 import Driver.BlockOps
 import Driver.ThreadsOps
+import Driver.TocOps
 
 namespace Driver
 
-def handlers : List Handler := [registryHandler, dispatchHandler, normalizeHandler, tablesHandler, blockHandler, threadsHandler]
+def handlers : List Handler := [registryHandler, dispatchHandler, normalizeHandler, tablesHandler, blockHandler, threadsHandler, tocHandler]
 
 end Driver
